@@ -177,6 +177,30 @@ class FxGc(_SvcBase):
             emit("beat", self.fx_name, n=n)
 
 
+@service(flavour=threading)
+class FxSvcUnhashable(_SvcBase):
+    """value semantics like a plain @dataclass: equal by configuration, not hashable"""
+    __hash__ = None
+
+    def __eq__(self, other):
+        return type(other) is type(self) and self.period == other.period
+
+    run = FxSvcThread.run
+
+
+@service(flavour=asyncio)
+class FxSvcEqual(_SvcBase):
+    """value semantics like @dataclass(unsafe_hash=True): all instances are equal and hash alike"""
+
+    def __eq__(self, other):
+        return type(other) is type(self)
+
+    def __hash__(self):
+        return 7
+
+    run = FxSvcAsyncio.run
+
+
 @service(flavour=trio)
 class FxSvcQuiet(PoolDecorator):
     """a silent service: only reports that it was started"""
@@ -203,7 +227,7 @@ class FxSvcCtrl(Controller):
     run = FxSvcTrio.run
 '''
 MOD = "verifdaemon_fx"
-TAGS = ["FxPool", "FxDeco", "FxCtrl", "FxSvcAsyncio", "FxSvcTrio", "FxSvcThread", "FxSvcCtrl", "FxSvcParked", "FxGc", "FxSvcQuiet"]
+TAGS = ["FxPool", "FxDeco", "FxCtrl", "FxSvcAsyncio", "FxSvcTrio", "FxSvcThread", "FxSvcCtrl", "FxSvcParked", "FxGc", "FxSvcQuiet", "FxSvcUnhashable", "FxSvcEqual"]
 _ready = False
 
 
